@@ -215,15 +215,10 @@ class MemoryWorkflowStore(AbstractWorkflowStore):
         handle duplicate sequence numbers (which occur when multiple internal
         adapters share the same run_id).
         """
-        # Determine starting index: skip events with sequence <= after_sequence
-        all_events = self.events.get(run_id, [])
-        if after_sequence >= 0:
-            cursor = 0
-            for i, e in enumerate(all_events):
-                if e.sequence <= after_sequence:
-                    cursor = i + 1
-        else:
-            cursor = 0
+        # Determine starting index: skip events with sequence <= after_sequence.
+        # Sequences are the list indices (0, 1, 2, ...), so this also holds for
+        # events that have not been appended yet.
+        cursor = max(after_sequence + 1, 0)
 
         condition = self._get_or_create_condition(run_id)
 
